@@ -29,7 +29,7 @@ var obsOpt = &obs.Options{Deny: map[string]bool{".RawBytes": true, ".ExcessBytes
 func streamAdapters() []*adapters.Adapter {
 	var out []*adapters.Adapter
 	for _, a := range adapters.All {
-		if a.Name != "ReadLeaseSet" { // returns no remainder
+		if !a.NoRem {
 			out = append(out, a)
 		}
 	}
@@ -286,6 +286,26 @@ func execute(s *engine.Script, o *engine.Outcome) {
 			continue
 		}
 		fr.obs0 = obs.Observe(res.Val, &opt)
+		// the input is what lies below len(): bytes in the slice's spare capacity
+		// (here: a plausible continuation) are not part of it
+		{
+			conts := continuations(fr)
+			big := append(cp(fr.w), conts[0]...)
+			var r3 adapters.Result
+			if !o.Guard("parse with spare capacity "+ad.Name, func() { r3 = ad.Parse(big[:len(fr.w)], fr.arg) }) {
+				o.Fault("input-with-spare-capacity")
+				switch {
+				case !r3.OK:
+					o.Violate("C03/depends-on-spare-capacity/"+ad.Name+"/rejected", "op %d %s: the %d-byte structure is accepted from an exact slice but rejected from a slice of the same length with %d bytes of spare capacity", i, ad.Name, len(fr.w), len(conts[0]))
+				case len(r3.Rem) != 0:
+					o.Violate("C03/depends-on-spare-capacity/"+ad.Name+"/remainder", "op %d %s: remainder of %d bytes from an input of exactly the structure's %d bytes (the slice had spare capacity)", i, ad.Name, len(r3.Rem), len(fr.w))
+				default:
+					if got := obs.Observe(r3.Val, &opt); got != fr.obs0 {
+						o.Violate("C03/depends-on-spare-capacity/"+ad.Name+"/value", "op %d %s: value differs when the input slice has spare capacity: %s", i, ad.Name, firstDiff(fr.obs0, got))
+					}
+				}
+			}
+		}
 		if len(op.N) >= 2 {
 			fr.pad, fr.padTag = padding(fr, int(op.N[0]), int(op.N[1]), op.Shape.Seed^uint64(i))
 		}
